@@ -17,6 +17,14 @@ func tvString(tag, l int) string {
 	if l == 0 {
 		return ""
 	}
+	if tag == 4 {
+		// multi-byte text of exactly l bytes: a leading 'e' (so that tvOut reads the tag back), then two-byte characters
+		s := "e" + strings.Repeat("é", (l-1)/2)
+		if len(s) < l {
+			s += "e"
+		}
+		return s
+	}
 	return strings.Repeat(string(rune('a'+tag)), l)
 }
 
